@@ -166,6 +166,11 @@ class Ref:
         def res(o):
             if o[0] == "outer":
                 return o[1] if isinstance(o[1], tuple) else self.handles[o[1]]
+            if o[0] == "late":
+                # a handle looked up when the closure runs; handles are only ever appended
+                return self.handles[o[1]] if o[1] < len(self.handles) else ("unknown",)
+            if o[0] == "foreign":
+                return ("unknown",)
             _, d, i = o
             return locals_[i] if d == 0 else env[d - 1][i]
         for t in body:
@@ -248,6 +253,8 @@ class Ref:
             # outer operands are handle indices; they are resolved now (the closure captures the nodes)
             H.append(("bind", H[op[1]], self.capture(op[2]), []))
         elif k == "mapexport":
+            H.append(("unknown",))
+        elif k == "exporthandle":
             H.append(("unknown",))
         elif k == "memonew":
             self.memos.append(self.capture(op[1]))
